@@ -88,7 +88,7 @@ func (m *mon) smvLatin(a *acc, idx int) {
 	rows, dim := []int{1, 2, 9, 64, 500}[idx%5], 1+idx%4
 	where := fmt.Sprintf("samplemv.LatinHypercube rows=%d dim=%d case %d", rows, dim, idx)
 	b := nanDense(rows, dim, []float64{math.NaN(), 0.5, 0}[idx%3])
-	samplemv.LatinHypercube{Q: distmv.NewUnitUniform(dim, nil), Src: m.c.RNG("smv.lhs", idx)}.Sample(b)
+	samplemv.LatinHypercube{Q: distmv.NewUnitUniform(dim, nil), Src: m.src("smv.lhs", idx)}.Sample(b)
 	a.eval("samplemv.LatinHypercube.Sample|unit-uniform", 1)
 	for j := 0; j < dim; j++ {
 		col := mat.Col(nil, j, b)
@@ -115,7 +115,7 @@ func (m *mon) smvHalton(a *acc, idx int) {
 	where := fmt.Sprintf("samplemv.Halton rows=%d dim=%d prefill=%v case %d", rows, dim, prefill, idx)
 	m.c.LastCase(where)
 	b := nanDense(rows, dim, prefill)
-	h := samplemv.Halton{Kind: samplemv.Owen, Q: distmv.NewUnitUniform(dim, nil), Src: m.c.RNG("smv.halton", idx)}
+	h := samplemv.Halton{Kind: samplemv.Owen, Q: distmv.NewUnitUniform(dim, nil), Src: m.src("smv.halton", idx)}
 	if msg, panicked := try(func() { h.Sample(b) }); panicked {
 		a.fail("samplemv.Halton.Sample|"+class+"|panics", where, "panic: %s", msg)
 		return
